@@ -99,6 +99,30 @@ pub struct FlatAct {
     pub explicit_time: bool,
 }
 
+/// Like `flatten`, but transit stops (required breaks taken on the road) are kept: their activities have no location.
+/// Used by the bookkeeping rules only (restricted semantics); the second value says whether a transit stop was seen.
+pub fn flatten_any(tour: &sol::Tour) -> Option<(Vec<FlatAct>, bool)> {
+    let mut out = vec![];
+    let mut transit = false;
+    for (si, stop) in tour.stops.iter().enumerate() {
+        let (location, time, activities) = match stop {
+            sol::Stop::Point(p) => (Some(&p.location), &p.time, &p.activities),
+            sol::Stop::Transit(t) => {
+                transit = true;
+                (None, &t.time, &t.activities)
+            }
+        };
+        for a in activities.iter() {
+            let (start, end, explicit_time) = match a.time.as_ref() {
+                Some(t) => (parse_time(&t.start)?, parse_time(&t.end)?, true),
+                None => (parse_time(&time.arrival)?, parse_time(&time.departure)?, false),
+            };
+            out.push(FlatAct { stop: si, job_id: a.job_id.clone(), kind: a.activity_type.clone(), loc: a.location.as_ref().or(location).and_then(loc_index), tag: a.job_tag.clone(), start, end, explicit_time });
+        }
+    }
+    Some((out, transit))
+}
+
 pub fn flatten(tour: &sol::Tour) -> Option<Vec<FlatAct>> {
     let mut out = vec![];
     for (si, stop) in tour.stops.iter().enumerate() {
@@ -204,17 +228,26 @@ pub fn evaluate(problem: &api::Problem, matrices: &[api::Matrix], solution: &sol
         if !used_shift.insert((tour.vehicle_id.clone(), tour.shift_index)) {
             v.add(Prop::Conservation, "vehicle-shift-used-twice", format!("{ctx}: vehicle shift drives two tours"));
         }
-        let Some(acts) = flatten(tour) else {
-            v.unspec("transit-stop-or-unparsable-time");
+        let Some((acts, has_transit)) = flatten_any(tour) else {
+            v.unspec("unparsable-time");
             v.full_semantics = false;
             continue;
         };
+        if has_transit {
+            v.unspec("transit-stop");
+            v.fact("transit_stop");
+            v.full_semantics = false;
+        }
         if acts.len() < 2 || acts[0].kind != "departure" {
             v.add(Prop::Conservation, "no-departure", format!("{ctx}: first activity is not a departure"));
             continue;
         }
         let has_end = shift.end.is_some();
-        let last_is_arrival = acts.last().is_some_and(|a| a.kind == "arrival");
+        // a required break that falls onto the arrival time is reported after the arrival activity in the last stop; the
+        // documentation does not say where it goes, so trailing untagged breaks of a shift with required breaks are skipped
+        let has_required = shift.breaks.iter().flatten().any(|b| matches!(b, api::VehicleBreak::Required { .. }));
+        let last_idx = acts.iter().rposition(|a| !(has_required && a.kind == "break" && a.tag.is_none())).unwrap_or(acts.len() - 1);
+        let last_is_arrival = acts.get(last_idx).is_some_and(|a| a.kind == "arrival");
         if has_end != last_is_arrival {
             v.add(Prop::Conservation, "arrival-mismatch", format!("{ctx}: shift end defined = {has_end}, tour ends with arrival = {last_is_arrival}"));
         }
@@ -261,7 +294,7 @@ pub fn evaluate(problem: &api::Problem, matrices: &[api::Matrix], solution: &sol
         for (i, a) in acts.iter().enumerate() {
             match a.kind.as_str() {
                 "departure" | "arrival" => {
-                    if (a.kind == "departure") != (i == 0) || (a.kind == "arrival" && i != acts.len() - 1) {
+                    if (a.kind == "departure") != (i == 0) || (a.kind == "arrival" && i != last_idx) {
                         v.add(Prop::Conservation, "depot-activity-misplaced", format!("{ctx}: {} at position {i}", a.kind));
                     }
                     resolved.push(None);
@@ -291,7 +324,15 @@ pub fn evaluate(problem: &api::Problem, matrices: &[api::Matrix], solution: &sol
                             }
                         }
                         None => {
-                            v.add(Prop::Conservation, "break-not-defined", format!("{ctx}: break activity (tag {:?}) does not correspond to a distinct break of this vehicle shift", a.tag));
+                            // a required break carries no tag and no place of its own
+                            let req = if a.tag.is_none() { breaks_left.iter().position(|(_, b)| matches!(b, api::VehicleBreak::Required { .. })) } else { None };
+                            match req {
+                                Some(p) => {
+                                    breaks_left.remove(p);
+                                    v.fact("required_break_assigned");
+                                }
+                                None => v.add(Prop::Conservation, "break-not-defined", format!("{ctx}: break activity (tag {:?}) does not correspond to a distinct break of this vehicle shift", a.tag)),
+                            }
                             resolved.push(None);
                             tour_ok = false;
                         }
